@@ -38,6 +38,11 @@ func (c *HeartbeatManager) IsHeartbeatRunning() bool {
 	c.stopMux.Lock()
 	defer c.stopMux.Unlock()
 
+	return c.isHeartbeatRunning()
+}
+
+// needs to be called with stopMux locked
+func (c *HeartbeatManager) isHeartbeatRunning() bool {
 	if c.stopHeartbeatC != nil && !c.isHeartbeatClosed() {
 		return true
 	}
@@ -88,8 +93,11 @@ func (c *HeartbeatManager) StartHeartbeat() error {
 		return err
 	}
 
+	c.stopMux.Lock()
+	defer c.stopMux.Unlock()
+
 	// stop an already running heartbeat
-	c.StopHeartbeat()
+	c.stopHeartbeat()
 
 	c.stopHeartbeatC = make(chan struct{})
 
@@ -101,7 +109,15 @@ func (c *HeartbeatManager) StartHeartbeat() error {
 // Stop updating heartbeat data
 // Note: No active subscribers will get any further notifications!
 func (c *HeartbeatManager) StopHeartbeat() {
-	if c.IsHeartbeatRunning() {
+	c.stopMux.Lock()
+	defer c.stopMux.Unlock()
+
+	c.stopHeartbeat()
+}
+
+// needs to be called with stopMux locked
+func (c *HeartbeatManager) stopHeartbeat() {
+	if c.isHeartbeatRunning() {
 		close(c.stopHeartbeatC)
 	}
 }
